@@ -130,7 +130,14 @@ fn history_case(front: Front, reg: Reg, rng: &mut Prng, col: &mut Collector) {
     };
     let mut r0 = Prng::new(seed);
     let Some((mut a, net)) = mk(&mut r0) else {
-        col.event("harness_session_json_rejected");
+        // is it the harness' edit of the counters, or does not even the crate's own document of a
+        // freshly activated session come back?
+        let opts = DevOpts { rng_seed: Some(seed), ..Default::default() };
+        let plain: Result<(Dev, Net), String> = abp_dev(front, reg, &mut Prng::new(seed), &opts, |_| {});
+        match plain {
+            Err(e) => col.violation("C20|restore-fails|fresh-abp-session", "the session of a freshly activated device, serialised by the crate, does not deserialise", json!({"front": front.name(), "region": reg.name(), "error": e})),
+            Ok(_) => col.event("harness_session_json_rejected"),
+        }
         return;
     };
     a.set_datarate(dr);
@@ -457,7 +464,13 @@ fn mutate(doc: &str, kind: u64, rng: &mut Prng) -> (String, &'static str) {
 
 fn malformed_case(front: Front, reg: Reg, idx: u64, rng: &mut Prng, col: &mut Collector) {
     let opts = DevOpts { rng_seed: Some(rng.next_u64()), ..Default::default() };
-    let Ok((mut dev, net)): Result<(Dev, Net), _> = abp_dev(front, reg, rng, &opts, |_| {}) else { return };
+    let (mut dev, net): (Dev, Net) = match abp_dev(front, reg, rng, &opts, |_| {}) {
+        Ok(x) => x,
+        Err(e) => {
+            col.violation("C20|restore-fails|fresh-abp-session", "the session of a freshly activated device, serialised by the crate, does not deserialise", json!({"front": front.name(), "region": reg.name(), "error": e}));
+            return;
+        }
+    };
     // reach a non-trivial valid document first
     let cmds = [dev_status_req(), rx_timing_setup_req(3)].concat();
     let f = net.mac_downlink(1, &cmds, true);
